@@ -128,3 +128,97 @@ class Pipeline:
 
 def make_pipeline(*steps):
     return Pipeline([(type(s).__name__.lower(), s) for s in steps])
+
+
+# ----------------------------------------------------------------------------------------------
+# contract models of the scikit-learn / scipy helpers used by the forecasting metrics (symbolic world)
+def _check_reg_targets(y_true, y_pred, multioutput, dtype="numeric"):
+    yt = mnp.array(y_true)
+    yp = mnp.array(y_pred)
+    if len(_obj(yt)) != len(_obj(yp)):
+        raise ValueError("Found input variables with inconsistent numbers of samples")
+    if yt.ndim == 1:
+        yt = yt.reshape(-1, 1)
+    if yp.ndim == 1:
+        yp = yp.reshape(-1, 1)
+    if yt.shape[1] != yp.shape[1]:
+        raise ValueError("y_true and y_pred have different number of output")
+    n_out = yt.shape[1]
+    if isinstance(multioutput, str):
+        if multioutput not in ("raw_values", "uniform_average", "variance_weighted"):
+            raise ValueError("Allowed 'multioutput' string values are ...")
+    elif multioutput is not None:
+        multioutput = mnp.array(multioutput)
+        if n_out == 1:
+            raise ValueError("Custom weights are useful only in multi-output cases.")
+        if n_out != len(multioutput):
+            raise ValueError("There must be equally many custom weights as outputs")
+    return ("continuous" if n_out == 1 else "continuous-multioutput"), yt, yp, multioutput
+
+
+def check_consistent_length(*arrs):
+    ls = [len(_obj(a)) for a in arrs if a is not None]
+    if len(set(ls)) > 1:
+        raise ValueError("Found input variables with inconsistent numbers of samples: %r" % ls)
+
+
+def _multi(output_errors, multioutput):
+    if isinstance(multioutput, str):
+        if multioutput == "raw_values":
+            return output_errors
+        multioutput = None
+    return mnp.average(output_errors, weights=multioutput)
+
+
+def mean_absolute_error(y_true, y_pred, sample_weight=None, multioutput="uniform_average"):
+    _, yt, yp, mo = _check_reg_targets(y_true, y_pred, multioutput)
+    check_consistent_length(yt, yp, sample_weight)
+    return _multi(mnp.average(mnp.abs(yp - yt), weights=sample_weight, axis=0), mo)
+
+
+def mean_squared_error(y_true, y_pred, sample_weight=None, multioutput="uniform_average", squared=True):
+    _, yt, yp, mo = _check_reg_targets(y_true, y_pred, multioutput)
+    check_consistent_length(yt, yp, sample_weight)
+    oe = mnp.average((yt - yp) ** 2, axis=0, weights=sample_weight)
+    if not squared:
+        oe = mnp.sqrt(oe)
+    return _multi(oe, mo)
+
+
+def _weighted_percentile(array, sample_weight, percentile=50):
+    """documented contract: weighted lower percentile ('inverted_cdf'), column-wise for 2-D input"""
+    a = _obj(array)
+    one_d = a.ndim == 1
+    if one_d:
+        a = a.reshape(-1, 1)
+    wts = list(_obj(sample_weight).ravel())
+    out = []
+    for j in range(a.shape[1]):
+        col = list(a[:, j])
+        order = mnp._argsorted(col)
+        tot = 0
+        for w in wts:
+            tot = tot + w
+        cum = 0
+        res = col[order[-1]]
+        for i in order:
+            cum = cum + wts[i]
+            if cum >= tot * Fraction(percentile, 100):
+                res = col[i]
+                break
+        out.append(res)
+    return out[0] if one_d else mnp.array(out)
+
+
+def median_absolute_error(y_true, y_pred, multioutput="uniform_average", sample_weight=None):
+    _, yt, yp, mo = _check_reg_targets(y_true, y_pred, multioutput)
+    if sample_weight is None:
+        oe = mnp.median(mnp.abs(yp - yt), axis=0)
+    else:
+        oe = _weighted_percentile(mnp.abs(yp - yt), sample_weight=sample_weight)
+    return _multi(oe, mo)
+
+
+def gmean(a, axis=0):
+    la = mnp.log(a)
+    return mnp.exp(mnp.mean(la, axis=axis))
